@@ -48,6 +48,8 @@ type Lemma struct {
 	TimeoutS  int      `json:"timeout_s"`
 	Stubs     []string `json:"stubs"`
 	Outside   string   `json:"outside"`
+	Mode      string   `json:"mode"` // "" = harness, "lockbal" = under-constrained lock balance over Pkgs
+	Pkgs      []string `json:"pkgs"`
 }
 
 type KnownFinding struct {
@@ -98,7 +100,7 @@ func harnessOverlay(dirs []string, native bool) (map[string][]byte, error) {
 		hd := filepath.Join(verifDir, "harness", d)
 		ents, err := os.ReadDir(hd)
 		if err != nil {
-			return nil, fmt.Errorf("harness dir %s: %v", hd, err)
+			continue // package without harness files (lock-balance mode loads plain packages)
 		}
 		for _, e := range ents {
 			if e.IsDir() || !strings.HasSuffix(e.Name(), ".go") {
@@ -240,6 +242,12 @@ func cmdCheck(args []string) int {
 			}
 		}
 		sel = append(sel, l)
+		if l.Mode != "" {
+			for _, d := range l.Pkgs {
+				dirSet[d] = true
+			}
+			continue
+		}
 		dirSet[l.Pkg] = true
 		for _, s := range l.Shims {
 			dirSet[s] = true
@@ -422,6 +430,9 @@ func compactJSON(v interface{}) string {
 }
 
 func runLemma(ld *loaded, l *Lemma, tier string, seed int, knownOpen map[string]bool, outDir string, trace bool) *LemmaResult {
+	if l.Mode == "lockbal" {
+		return runLockBalLemma(ld, l, seed, knownOpen)
+	}
 	pkg := ld.pkgs[l.Pkg]
 	fail := func(msg string) *LemmaResult {
 		return &LemmaResult{Lemma: l, Inconclusive: []string{msg}, PathsEnded: map[string]int{}, Reached: map[string]int{}, AssertIDs: map[string]int{}, FuncsHit: map[string]bool{}}
@@ -518,4 +529,79 @@ func cmdNative(args []string) int {
 		}
 	}
 	return rc
+}
+
+func runLockBalLemma(ld *loaded, l *Lemma, seed int, knownOpen map[string]bool) *LemmaResult {
+	res := &LemmaResult{Lemma: l, PathsEnded: map[string]int{}, Reached: map[string]int{}, AssertIDs: map[string]int{}, FuncsHit: map[string]bool{}}
+	t0 := time.Now()
+	cpuTokens <- struct{}{}
+	defer func() { <-cpuTokens }()
+	solver, err := NewSolver("z3", []string{"-in"}, "", seed, 20000)
+	if err != nil {
+		res.Inconclusive = append(res.Inconclusive, "cannot start z3: "+err.Error())
+		return res
+	}
+	defer solver.Close()
+	skip := func(fn *ssa.Function) bool {
+		if fn.Pkg == nil {
+			return true
+		}
+		path := fn.Pkg.Pkg.Path()
+		if strings.Contains(path, "mock") || strings.Contains(path, "/examples/") || strings.HasSuffix(path, "/internal/vf") {
+			return true
+		}
+		name := fn.Name()
+		if strings.HasPrefix(name, "zz") || strings.HasPrefix(name, "ZZ") {
+			return true
+		}
+		if fn.Signature.Recv() != nil {
+			rt := fn.Signature.Recv().Type().String()
+			if strings.Contains(rt, ".zz") || strings.Contains(rt, ".ZZ") {
+				return true
+			}
+		}
+		pos := ld.prog.Fset.Position(fn.Pos())
+		return strings.HasSuffix(pos.Filename, "_test.go") || strings.Contains(filepath.Base(pos.Filename), "zz_vf")
+	}
+	st := runLockBalance(ld.prog, solver, skip)
+	res.Paths = st.Paths
+	res.PathsEnded[""] = st.Paths
+	res.Queries = solver.Queries
+	res.SolverTime = solver.Time
+	res.Sat, res.Unsat, res.Unknown = solver.Sat, solver.Unsat, solver.Unknown
+	res.Obligations = st.Functions
+	res.Discharged = st.Functions
+	res.Inconclusive = append(res.Inconclusive, st.Incon...)
+	res.Reached["functions-analysed"] = st.Functions
+	res.AssertIDs["lock-balance"] = st.Functions
+	for _, n := range st.Names {
+		res.FuncsHit[n] = true
+	}
+	bad := map[string]bool{}
+	for _, f := range st.Findings {
+		id := fmt.Sprintf("%s: %s of %s", f.Fn, f.Kind, f.Key)
+		model := map[string]interface{}{"function": f.Fn, "kind": f.Kind, "lock": f.Key, "blocks": f.Path}
+		for k, v := range f.Model {
+			model[k] = v
+		}
+		v := Violation{Kind: "uc-lock", ID: id, Pos: f.Pos, Model: model, Harness: f.Fn}
+		kfID := "KF-C08-lock:" + f.Fn + ":" + f.Key
+		if knownOpen[kfID] {
+			v.KnownIDs = []string{kfID}
+		} else if !bad[f.Fn] {
+			bad[f.Fn] = true
+			res.Discharged--
+		}
+		res.Violations = append(res.Violations, v)
+	}
+	res.Samples = append(res.Samples, map[string]interface{}{"functions_with_lock_sites": st.Functions, "lock_sites": st.Sites, "paths": st.Paths, "example_functions": firstN(st.Names, 8)})
+	res.Wall = time.Since(t0)
+	return res
+}
+
+func firstN(s []string, n int) []string {
+	if len(s) > n {
+		return s[:n]
+	}
+	return s
 }
